@@ -17,5 +17,8 @@ MIN_OBLIGATIONS = 20
 def build(src, tier):
     w = TT.world_for(src, tier)
     # cancellation can only reach sources that are tracked: what __post_event owes (tags C11) is checked here too
-    return [(w, [TT.t_cancel_events(), TT.t_cancel_event(), TT.t_timed_post('fifo'), TT.t_timed_post('lifo'),
+    # ... and that stay tracked: the container holds as many records as the admission test of __post_event lets in
+    from . import queue_targets as Q
+    from .C16 import t_ao_init_subclass
+    return [(Q.world_for(src, tier), [t_ao_init_subclass()]), (w, [TT.t_cancel_events(), TT.t_cancel_event(), TT.t_timed_post('fifo'), TT.t_timed_post('lifo'),
                  TT.t_timed_post('fifo', may_cancel=True), TT.t_timed_post('lifo', may_cancel=True)])]
